@@ -260,6 +260,14 @@ class Run:
     def differential(self, cases, label="diff", stop_after=5):
         """cases: list of dicts {cmd, impl (str), oracle (str|None), kind, key}.
         Runs all cmds through the extracted model and compares the three."""
+        if getattr(self, "replay_call", None):
+            # replay: only the recorded case (same seed and tier regenerate it)
+            cases = [c for c in cases if c["cmd"][:len(self.replay_call)] == self.replay_call]
+            log("replay: %d matching case(s)" % len(cases))
+            for c in cases:
+                log("  call:", c["cmd"][:300])
+                log("  implementation:", c["impl"][:300])
+                log("  specification:", str(c.get("oracle"))[:300])
         outs = self.model.ask([c["cmd"] for c in cases])
         bad = []
         for c, m in zip(cases, outs):
